@@ -90,7 +90,7 @@ func c18Template(r *R) string {
 	n := r.Range(2, 7)
 	dump := func(e string) string { return "\x01{{ " + e + "|json_encode }}\x02" }
 	for i := 0; i < n; i++ {
-		switch r.N(20) {
+		switch r.N(22) {
 		case 0, 1:
 			l, f := listAndFilter(r)
 			sb.WriteString("{{ " + l + "|" + f + "|json_encode }};")
@@ -150,6 +150,12 @@ func c18Template(r *R) string {
 			// literal name; whatever it does, the caller's nested maps are not its to write)
 			tgt := pick(r, []string{"m1.inner.a", "m1.inner.zz", "gm.inner.b", "p1.Meta.z", "pp.Meta.y", "cfg.list.x", "m1.k1", "hold2.Notes.k", "gcfg.mode.x"})
 			sb.WriteString("{% set " + tgt + " = " + pick(r, []string{"'w'", "[1]", "n1"}) + " %}{{ m1.inner|json_encode }}{{ " + tgt + "|default('-') }};")
+		case 19:
+			// a value whose own methods would consume it if the engine called them (io.WriterTo, io.Reader)
+			sb.WriteString("{{ " + pick(r, []string{"buf", "buf", "buf|upper", "buf|length", "buf|default('d')", "buf ~ '!'", "m1.stream"}) + " }};")
+		case 20:
+			// the caller's variables cross into a sandboxed include (policy installed): among them Go callables
+			sb.WriteString("{% include 'part' " + pick(r, []string{"sandboxed", "with {'s1': 'sb'} sandboxed", "with {'m1': svc} sandboxed"}) + " %}{{ svc.name }}{{ svc.handlers.label }};")
 		default:
 			sb.WriteString("{% do " + "n1 + 1 %}{{ pp.Inner.Name }}{{ pp.Greeting }}{{ l2|first|json_encode }};")
 		}
@@ -171,6 +177,8 @@ func (propC18) Gen(seed uint64, ex map[string]bool) interface{} {
 		KV{"nums", &Val{T: "list", L: []*Val{i(5), i(3), i(9), i(1), i(7)}}},
 		KV{"si", &Val{T: "simap", M: []KV{{"one", i(1)}, {"two", i(2)}, {"three", i(3)}}}},
 		KV{"counters", &Val{T: "counters", L: []*Val{i(1), i(5), i(9)}}},
+		KV{"buf", &Val{T: "buffer", S: "buffered <text>"}},
+		KV{"svc", &Val{T: "map", M: []KV{{"name", s("svc")}, {"fn", &Val{T: "func", S: "called"}}, {"handlers", &Val{T: "map", M: []KV{{"label", s("L")}, {"h", &Val{T: "func", S: "h-called"}}}}}}}},
 		KV{"hold", &Val{T: "holder", S: "bare"}},
 		KV{"hold2", &Val{T: "holder", S: "full", I: 7}},
 		KV{"holders", &Val{T: "holders", L: []*Val{{T: "holder", S: "h1"}, {T: "holder", S: "h2", I: 2}, {T: "holder", S: "h3"}}}},
@@ -182,7 +190,7 @@ func (propC18) Gen(seed uint64, ex map[string]bool) interface{} {
 	)
 	for k := range ctx.M {
 		if ctx.M[k].K == "m1" {
-			ctx.M[k].V.M = append(ctx.M[k].V.M, KV{"blob", &Val{T: "bytes", S: "b\x00lob"}}, KV{"list", &Val{T: "list", L: []*Val{s("z"), s("y"), s("x")}}}, KV{"inner", &Val{T: "map", M: []KV{{"b", i(2)}, {"a", i(1)}}}})
+			ctx.M[k].V.M = append(ctx.M[k].V.M, KV{"stream", &Val{T: "buffer", S: "stream"}}, KV{"blob", &Val{T: "bytes", S: "b\x00lob"}}, KV{"list", &Val{T: "list", L: []*Val{s("z"), s("y"), s("x")}}}, KV{"inner", &Val{T: "map", M: []KV{{"b", i(2)}, {"a", i(1)}}}})
 		}
 	}
 	sc.Ctx = ctx
@@ -294,6 +302,7 @@ func (propC18) Run(scI interface{}) *Outcome {
 		defer twig.VerifSwapGlobals(coldGlobals)
 		for i, src := range sc.Templates {
 			pe := twig.New()
+			installSandbox(pe)
 			installGlobals(pe)
 			pe.RegisterString("part", sc.Part)
 			pe.RegisterString("lib18", c18Lib)
@@ -302,6 +311,7 @@ func (propC18) Run(scI interface{}) *Outcome {
 		}
 	}()
 	e := twig.New()
+	installSandbox(e)
 	globals := installGlobals(e) // engine-wide globals are caller-owned data too
 	globalsBefore := snapshot(globals) + snapshot(twig.VerifEngineGlobals(e))
 	if sc.Via == "debug" {
